@@ -370,9 +370,12 @@ def parse_outputs(text):
     return res
 
 
+MEM_LIMIT_GIB = [6]          # address-space limit of a harness process; a check that needs more for one case raises it (C12 thorough)
+
+
 def _limit_memory():
     import resource
-    lim = 6 * 1024 ** 3
+    lim = MEM_LIMIT_GIB[0] * 1024 ** 3
     resource.setrlimit(resource.RLIMIT_AS, (lim, lim))
 
 
@@ -706,7 +709,7 @@ def run_differential(prop, tier, seed, replay=None):
     def judge(batch, sub):
         """-> {id: (impl_lines, model_lines, mismatch, oracle_reason)}"""
         wd = os.path.join(workdir, sub)
-        impl = run_impl(batch, wd, timeout=prop.impl_timeout if sub == "main" else min(prop.impl_timeout, 6))
+        impl = run_impl(batch, wd, timeout=prop.impl_timeout if sub == "main" else min(prop.impl_timeout, getattr(prop, "sub_timeout", 6)))
         extra = {c.id: prop.model_extra(c, impl.get(c.id, [])) for c in batch}
         try:
             model = run_model(batch, wd, extra)
@@ -773,7 +776,7 @@ def run_differential(prop, tier, seed, replay=None):
         def still(cands, _c=c, _orc=orc):
             v = judge(cands, "shrink")
             return [bool(v[x.id][3]) and reason_key(v[x.id][3]) == reason_key(_orc) for x in cands]
-        small = shrink(prop, c, still, workdir) if not replay else c
+        small = shrink(prop, c, still, workdir) if not replay and "no_shrink" not in c.tags else c
         v = judge([small], "final")[small.id]
         reason = v[3] or orc
         use = small if v[3] else c
@@ -797,7 +800,7 @@ def run_differential(prop, tier, seed, replay=None):
         def still2(cands, _c=c):
             v = judge(cands, "shrink")
             return [bool(v[x.id][2]) for x in cands]
-        small = shrink(prop, c, still2, workdir) if not replay else c
+        small = shrink(prop, c, still2, workdir) if not replay and "no_shrink" not in c.tags else c
         v = judge([small], "final")[small.id]
         use = small if v[2] else c
         rep.violation(f"{use.id}.case",
